@@ -393,6 +393,75 @@ def run_cases(prop, dec, cases, checks, size=40, refs=None, runner=None, prefix=
     return runner, results, failing, broken, ref_runs
 
 
+# ---------------------------------------------------------------------------- shrinking a failing history
+_minimised = [0]
+
+
+def minimise(prop, case, check, max_rounds=60, budget_s=240):
+    """Delta debugging over the operation list of a failing case: a sub-history (operations removed, order
+    kept) on which the REAL loop still fails the same obligation.  Every round evaluates all its candidates
+    on the implementation and in one Coq file.  Used only after a violation was found."""
+    import time as _time
+    name, coqname = check[0], check[1]
+    ops = list(case['ops'])
+    acceptor = case['acceptor']
+    max_len = case.get('max_len', 65536)
+    env = c_env(message_table())
+    t0 = _time.time()
+
+    def failing_of(cands):
+        terms = []
+        for ops_c in cands:
+            r = run(ops_c, acceptor, max_len)
+            o = obs_term(r)
+            terms.append('(mkpc %s %s %d %s %s %s)' % (env, cbool(not acceptor), max_len,
+                                                       clist([c_op(op) for op in ops_c]), o, o))
+        # a candidate counts when the implementation fails the obligation on it AND the model's own run of the same
+        # operations satisfies it: the oracles are written for the scenarios of the checks (e.g. "ends at rest" after
+        # the peer closed), and a sub-history may simply not be such a scenario
+        preamble = ('Definition model_case (c : pcase) : pcase :=\n'
+                    '  let o := model_obs (pc_env c) (pc_req c) (pc_max c) (pc_ops c) in\n'
+                    '  mkpc (pc_env c) (pc_req c) (pc_max c) (pc_ops c) o o.\n'
+                    'Definition shrink_chk (c : pcase) : bool := negb (negb (%s c) && %s (model_case c)).\n'
+                    % (coqname, coqname))
+        runner = common.CoqRun(prop + '-min')
+        failing, broken, _a, _b = common.run_sharded(runner, 'Min', IMPORTS, 'pcase', terms, [(name, 'shrink_chk')],
+                                                     size=max(1, len(terms)), preamble=preamble)
+        runner.cleanup()
+        return [] if broken else failing[name]
+    n = 2
+    rounds = 0
+    while len(ops) >= 2 and rounds < max_rounds and _time.time() - t0 < budget_s:
+        rounds += 1
+        size = max(1, len(ops) // n)
+        chunks = [ops[i:i + size] for i in range(0, len(ops), size)]
+        cands = [sum(chunks[:i] + chunks[i + 1:], []) for i in range(len(chunks))]
+        bad = failing_of(cands)
+        if bad:
+            ops = cands[bad[0]]
+            n = max(n - 1, 2)
+        elif size == 1:
+            break
+        else:
+            n = min(len(ops), n * 2)
+    return ops, rounds
+
+
+def with_minimal(prop, record, case, check, limit=2):
+    """Adds a shrunk history to the first `limit` violation records of a run (cases with a reference run, C03,
+    are compared with another run and are left as they are)."""
+    if _minimised[0] >= limit or case.get('ref'):
+        return record
+    _minimised[0] += 1
+    try:
+        ops, rounds = minimise(prop, case, check)
+        record = dict(record, minimal_history=short_ops(ops), minimal_history_length=len(ops),
+                      original_history_length=len(case['ops']), shrinking_rounds=rounds)
+    except Exception as e:  # noqa  (shrinking is a convenience: never lose the violation over it)
+        record = dict(record, shrinking_failed=repr(e))
+    return record
+
+
 def short_ops(ops):
     out = []
     for op in ops:
